@@ -276,7 +276,8 @@ def battery_cases(expect=False):
     out += [(f'principal has o && {acc}', True), (f'principal has o || {acc}', False), (f'if principal has o then {acc} else true', True), (f'if principal has o then true else {acc}', False),
             (f'(principal has o || principal.b) && {acc}', False), (f'(principal has o && principal.b) && {acc}', True), (f'(principal.b && principal has o) && {acc}', True),
             (f'(if principal.b then principal has o else principal has o) && {acc}', None), (f'(if principal.b then principal has o else true) && {acc}', False),
-            (f'(if principal.b then true else principal has o) && {acc}', False), (f'(if principal has o then principal.b else false) && {acc}', None),
+            (f'(if principal.b then true else principal has o) && {acc}', False), (f'(if principal has o then principal.b else false) && {acc}', None), (f'(if principal has o then principal.b else true) && {acc}', False), (f'(if principal has o then true else principal.b) && {acc}', False),
+            (f'(if principal has o then !principal.b else !principal.b) && {acc}', False), (f'if (if principal has o then principal.b else true) then {acc} else true', False),
             (f'!(principal has o) || {acc}', False), (f'(principal has o || principal has o) && {acc}', None), (f'(principal.b || principal has o) && {acc}', False),
             (f'(principal has o || false) && {acc}', None), (f'(false || principal has o) && {acc}', None), (f'(principal has o || true) && {acc}', False), (f'(true || principal has o) && {acc}', False),
             (f'(true && principal has o) && {acc}', None), (f'(principal has o && true) && {acc}', None), (f'principal.b && (principal has o && {acc})', True), (f'principal.b || (principal has o && {acc})', True),
@@ -286,7 +287,7 @@ def battery_cases(expect=False):
             ('context.n == 1', True), ('context has n && context.n == 1', True), ('context.m == 1', False), (f'if principal has zz then {bad} else true', None), (f'if principal has n then true else {bad}', False),
             (f'if context has n then true else {bad}', None), (f'principal has n || {bad}', False), ('principal.ls.contains(principal.o)', False), ('principal has o && principal.ls.contains(principal.o)', True),
             ('principal has o && principal has o', True), (f'(principal has o && principal has o) && {acc}', True), ('resource has zz', True), ('resource.zz', False)]
-    out += MORE
+    out += MORE + MULTI
     return out if expect else [c for c, _ in out]
 
 
@@ -314,6 +315,15 @@ MORE = [('principal.n == 1', True), ('principal.n == principal.s', False), ('pri
         ('(if principal.b then principal else principal.f).n == 1', True), ('(if principal.b then principal else resource) == principal', None), ('principal.n', False), ('principal.b', True)]
 
 
+# several request environments: an error in ONE environment (here: the resource type Note has no `owner`) must be reported even if the policy has type False there
+MULTI_SCHEMA = 'entity Group; entity User; entity Doc in [Group] { owner: User }; entity Note { title: String }; action look appliesTo { principal: [User], resource: [Doc, Note] };'
+MULTI_ENTS = [{'uid': {'type': 'User', 'id': 'u'}, 'attrs': {}, 'parents': []}, {'uid': {'type': 'Note', 'id': 'n'}, 'attrs': {'title': 't'}, 'parents': []}, {'uid': {'type': 'Group', 'id': 'g'}, 'attrs': {}, 'parents': []}]
+MULTI = [({'policy': 'permit(principal, action == Action::"look", resource) when { %s };' % c, 'action': 'Action::"look"', 'resource': 'Note::"n"', 'schema': MULTI_SCHEMA, 'entities': MULTI_ENTS}, e) for c, e in [
+    ('resource.owner == principal && resource in Group::"g"', False), ('resource.owner == principal && resource is Doc', False), ('resource is Doc && resource.owner == principal', True), ('resource.owner == principal', False),
+    ('resource has owner && resource.owner == principal', True), ('resource.owner == principal && false', False), ('if resource is Doc then resource.owner == principal else resource.title == "t"', True),
+    ('if resource is Note then resource.owner == principal else true', False), ('resource.title == "t" || resource is Doc', False), ('resource is Note && resource.title == "t"', True)]]
+
+
 def battery(ctx, name, role, why):
     """every operator applied to operands of every kind: if strict validation accepts the policy, evaluating it raises no type error (and it is accepted whenever the operand kinds are the expected ones)"""
     cache = ctx.__dict__.setdefault('_c03_battery', {})
@@ -324,6 +334,10 @@ def battery(ctx, name, role, why):
             if cache['r']:
                 break
             q = {'op': 'validate_eval', 'schema': V_SCHEMA, 'policy': 'permit(principal, action, resource) when { %s };' % cond, 'entities': ents, 'principal': 'User::"u"', 'action': 'Action::"view"', 'resource': 'Doc::"d"', 'context': {'n': 1}}
+            if isinstance(cond, dict):
+                q.update(cond)
+                q['context'] = {}
+                cond = cond['policy']
             a = ctx.native.ask(q)
             if 'valid' not in a:
                 return ctx.mismatch(name, f'validate_eval probe `{cond}`: {str(a)[:300]}')
@@ -346,9 +360,9 @@ def battery(ctx, name, role, why):
 
 
 def families(ctx):
-    from . import c03_control, c03_attr
+    from . import c03_control, c03_attr, c03_driver
     return ([(f'typing rule of {label}', lambda label=label, fname=fname, build=build, n=n, safe=safe, rk=rk: operator_node(ctx, label, fname, build, n, safe, rk)) for label, fname, build, n, safe, rk in nodes()]
-            + c03_control.families(ctx, battery) + c03_attr.families(ctx, battery))
+            + c03_control.families(ctx, battery) + c03_attr.families(ctx, battery) + c03_driver.families(ctx, battery))
 
 
 def run(ctx):
